@@ -587,6 +587,29 @@ pub fn exec_op(st: &mut Store, dir: &str, t: &[&str]) -> (String, bool) {
                     }
                 }
             }
+            "WA" => {
+                // RaftLog::dump() abandoned by its visitor after k items (the visitor returns an error)
+                use raft_log::DumpApi;
+                let k = pu(t[1]) as usize;
+                let mut n = 0usize;
+                let r = catch_unwind(AssertUnwindSafe(|| {
+                    st.rl.dump().write_with(|_chunk_id, _i, _res| {
+                        n += 1;
+                        if n > k {
+                            Err(std::io::Error::new(std::io::ErrorKind::Other, "enough"))
+                        } else {
+                            Ok(())
+                        }
+                    })
+                }));
+                match r {
+                    Ok(_) => "unit".to_string(),
+                    Err(_) => {
+                        stop = true;
+                        "panic".to_string()
+                    }
+                }
+            }
             "H" => {
                 let v = st.rl.verif_cache_resident();
                 format!("resident {}", v.iter().map(|(id, n)| format!("{}:{}:{}", id.0, id.1, n)).collect::<Vec<_>>().join(","))
